@@ -501,7 +501,23 @@ func runScanConc(t *testing.T, c ScanCase) *kit.Result {
 		simrt.GoNamed("scanner", func() {
 			defer wg.Done()
 			for s := 0; s < c.Scans && res.V == nil; s++ {
-				it, err := e.GetIterator()
+				var it iterator.Iterator
+				var err error
+				var lo, hi []byte
+				srng := kit.NewRand(c.PSeed + uint64(s)*7919)
+				if srng.Bool(0.5) && len(stable) > 0 {
+					// a range scan whose bounds are stable keys (or just beside them)
+					keys := kit.SortedKVs(stable)
+					lo = append([]byte(nil), keys[srng.Intn(len(keys))].Key...)
+					hi = append([]byte(nil), keys[srng.Intn(len(keys))].Key...)
+					if bytes.Compare(lo, hi) > 0 {
+						lo, hi = hi, lo
+					}
+					hi = append(hi, 0xff)
+					it, err = e.GetRangeIterator(lo, hi)
+				} else {
+					it, err = e.GetIterator()
+				}
 				if err != nil {
 					fail(&kit.Violation{Kind: "scan", Signature: "iterator-error", Detail: err.Error()})
 					return
@@ -519,9 +535,12 @@ func runScanConc(t *testing.T, c ScanCase) *kit.Result {
 					seen[string(kv.Key)] = kv.Val
 				}
 				for k, v := range stable {
+					if lo != nil && (bytes.Compare([]byte(k), lo) < 0 || bytes.Compare([]byte(k), hi) >= 0) {
+						continue
+					}
 					gv, ok := seen[k]
 					if !ok {
-						fail(&kit.Violation{Kind: "scan", Signature: "conc-scan-misses-untouched-key", Detail: fmt.Sprintf("scan %d: key %s existed before the scan and is not written during it, but is missing", s, kit.Q([]byte(k)))})
+						fail(&kit.Violation{Kind: "scan", Signature: "conc-scan-misses-untouched-key", Detail: fmt.Sprintf("scan %d [%s,%s): key %s existed before the scan and is not written during it, but is missing", s, kit.Q(lo), kit.Q(hi), kit.Q([]byte(k)))})
 						return
 					}
 					if !bytes.Equal(gv, v) {
